@@ -69,6 +69,7 @@ void SimBackend::MaybeThrow(const char* where) const {
   std::string msg = "simulated solver failure in " + std::string(where);
   if (kind == "mp") throw mp::Error(msg);
   if (kind == "mpcode") MP_RAISE_WITH_CODE((int)t["code"].as_int(550), msg);
+  if (kind == "abort") const_cast<SimBackend*>(this)->Abort((int)t["code"].as_int(550), msg);   // StdBackend::Abort
   if (kind == "int") throw 42;
   throw std::runtime_error(msg);
 }
@@ -126,7 +127,7 @@ std::vector<double> SimBackend::VarVec(const char* lenkey, double shift) const {
   else if (mode == "long") n = n + 3;
   else if (mode == "empty0") n = 0;
   std::vector<double> x(n);
-  for (int k = 0; k < n; ++k) x[k] = VarTag(k) + shift;
+  for (int k = 0; k < n; ++k) x[k] = mode == "ones" ? 1.0 : VarTag(k) + shift;
   std::string sp = script_str("special_value", "");
   if (!sp.empty() && n > 0) {
     double v = sp == "nan" ? NAN : sp == "inf" ? INFINITY : sp == "-inf" ? -INFINITY : sp == "huge" ? 1e308 : 0.0;
